@@ -16,7 +16,7 @@ PROP = dict(
          "library results compared with the oracle. Non-trivial = block with n >= 2, every irfft/istft block, every call whose expected outcome "
          "is an exception. Plan kinds reached and stft configurations are listed in path_histogram.",
     bounds=dict(
-        quick="ifft: every n in 1..256 (columns/impulses at every index for n <= 64, else boundary + split positions; 5 closed-form spectra; dense "
+        quick="ifft: every n in 1..256 (columns/impulses at every index for n <= 64, else boundary + split positions; 5 closed-form spectra; extreme-magnitude columns c*amp*column_m, m in {0,n/2,n-1}, c in {min(2*DBL_MAX/n, DBL_MAX/2), 1e-300, 4n*DBL_MIN}; round trip of 1e300 and 1e-300 impulses; dense "
               "O(n^2) oracle; round trip of 4 letters); irfft: every even n in 2..256 x {all n bins, first n/2+1 bins} x {impulses, tones, 5 "
               "closed-form, dense, round trip of 4 letters} x {irfft(X,n), irfft(X), IfftPlanR solve/operator()}; odd n in 1..257 must throw "
               "(2 forms x 2 APIs, forked; repeated under ASan); wrong bin counts for 13 n (crash only); irfft.after_reject: every even n in 2..256, in one process: irfft(X,n), then rejected "
